@@ -68,7 +68,7 @@ def fault_scenarios(tie, rng, thorough):
     for kind in S.KINDS:
         csd = S.csd_for(kind)
         for crc in (0, 1):
-            for code in ("0b", "0d", "eb", "ed", "ff", "00", "04", "e4", "07", "1f"):
+            for code in ("0b", "0d", "eb", "ed", "ff", "00", "04", "e4", "07", "1f", "15", "f5", "25"):
                 for calls in (["w:2:1:7"], ["w:2:3:7", "r:1:0"]):
                     sc = S.Scn("FX%d" % n, crc, 50, calls, kind=kind, csd=csd, memseed=5, tseed=n, faults="wres:" + code, tag="wres"); n += 1
                     scns.append(sc); expect[sc.id] = ("writeerr", 0)
